@@ -54,12 +54,20 @@ Definition new_objects (newdata : list (string * Z)) (newmans : list (string * l
    ++ map (fun p => (man_key (fst (fst p)), mkObj (snd p) (CManifest FAvro (snd (fst p))))) newmans
    ++ [(man_key lname, mkObj lmt (CList FAvro (kept ++ map (fun p => man_key (fst (fst p))) newmans)))])%list.
 
+(* Which entry paths a commit may name is what Transaction.append_files accepts: Gen/GenNorm.v append_accepts_path,
+   REGENERATED from the source on every run (the path guards it applies to every file; Proofs/GCAcceptProofs.v derives
+   "under data/" from it, for every normpath).  The model's store identifies a file with the literal string of its key --
+   there is no second spelling of a key ("data//f", "data/./f" are other keys, and existence below is literal) -- so
+   posixpath.normpath, which only tells such spellings apart, is instantiated by the identity. *)
+Definition literal_normpath (s : string) : string := s.
+Definition accepts (e : string) : bool := append_accepts_path literal_normpath e.
+
 Definition valid_commit (h : hstate) (newdata : list (string * Z)) (newmans : list (string * list string * Z)) (kept : list string)
   (lname : string) (lmt : Z) : bool :=
   let news := new_objects newdata newmans kept lname lmt in
   nodupb (map fst news)
   && forallb (fun k => negb (has_key k (h_store h))) (map fst news)
-  && forallb (fun p => forallb (fun e => startswith "data/" (resolve e)
+  && forallb (fun p => forallb (fun e => accepts e
                                        && (has_key (resolve e) (h_store h) || str_mem (resolve e) (map (fun q => data_key (fst q)) newdata)))
                                (snd (fst p))) newmans
   && forallb (fun m => str_mem m (cur_manifests h)) kept.
